@@ -621,6 +621,10 @@ def dev_menu(valid):
   first = valid.split(" ")[0]
   m = [("empty", ""), ("unknown-keyword", "bogus"), ("non-numeric", "x1y"), ("extra-component", valid + " " + first),
        ("extra-junk", valid + " bogus"), ("junk-suffix", valid + "xyz")]
+  if _re.fullmatch(r"\d\d:\d\d:\d\d(\.\d+|:\d\d)?", valid):
+    m += [("field-out-of-range", "00:75:00"), ("field-out-of-range", "00:00:75"), ("field-out-of-range", "00:61:61.5")]
+  if valid.startswith("#") or valid.startswith("rgb") or valid in NAMED:
+    m += [("component-out-of-range", "rgb(300,0,0)"), ("component-out-of-range", "rgba(1,2,3,400)")]
   nu = _UNITS.sub("", valid)
   if nu != valid:
     m.append(("missing-unit", nu))
